@@ -25,6 +25,7 @@ os.environ.setdefault("RUST_BACKTRACE", "0")
 import warnings  # noqa: E402
 
 warnings.filterwarnings("ignore", category=DeprecationWarning)
+warnings.filterwarnings("ignore", message="This key may not be safe")   # C06 records it explicitly where it matters
 
 from . import config  # noqa: E402
 from .explorer import explore_parallel, replay as replay_leaf, Stats, Divergence  # noqa: E402
